@@ -48,7 +48,7 @@ def pause_value_rule(ctx):
     ctx.counters["pause_writes_in_chain"] = len(pw)
     ctx.floor("pause_writes_in_chain", 1, "writes of pause_actions_until_ in run_action_chain")
     Xch = Expander(P, chain)
-    runs_ = virtual_run_calls(chain)
+    runs_ = virtual_run_calls(chain, prog=P)
     for i in pw:
         rhs = Xch(write_rhs(chain, i))
         ctx.check("steady_clock::now()" in rhs and "post_action_delay_" in rhs and "+" in rhs,
@@ -120,7 +120,7 @@ def run(ctx):
     ctx.ok("chain-start-only-in-runOnceImpl", "who-may-call", impl.loc(), "only runOnceImpl starts chains")
 
     # ---- R3 run_action_chain STOP case
-    runs = virtual_run_calls(chain)
+    runs = virtual_run_calls(chain, prog=P)
     ctx.count("chain_run_calls", len(runs))
     ctx.floor("chain_run_calls", 1, "virtual BasePlugin::run call in run_action_chain")
     pw = field_writes(chain, "pause_actions_until_")
